@@ -179,9 +179,46 @@ func isOnceDo(info *types.Info, se *ast.SelectorExpr) (ok bool, ptr bool) {
 	return true, ptr
 }
 
+// isCondMethod reports whether se is Wait, Signal or Broadcast of a sync.Cond.
+func isCondMethod(info *types.Info, se *ast.SelectorExpr) (name string, ptr bool, ok bool) {
+	s, found := info.Selections[se]
+	if !found {
+		return "", false, false
+	}
+	fn, isFn := s.Obj().(*types.Func)
+	if !isFn || fn.Pkg() == nil || fn.Pkg().Path() != "sync" {
+		return "", false, false
+	}
+	rt := fn.Type().(*types.Signature).Recv().Type()
+	if p, isP := rt.(*types.Pointer); isP {
+		rt = p.Elem()
+	}
+	named, isN := rt.(*types.Named)
+	if !isN || named.Obj().Name() != "Cond" {
+		return "", false, false
+	}
+	switch fn.Name() {
+	case "Wait", "Signal", "Broadcast":
+	default:
+		return "", false, false
+	}
+	_, ptr = info.TypeOf(se.X).Underlying().(*types.Pointer)
+	return fn.Name(), ptr, true
+}
+
 func rewriteCall(info *types.Info, c *ast.CallExpr) {
 	se, ok := c.Fun.(*ast.SelectorExpr)
 	if !ok {
+		return
+	}
+	if name, ptr, ok := isCondMethod(info, se); ok && len(c.Args) == 0 && pure(se.X) {
+		var key ast.Expr = se.X
+		if !ptr {
+			key = &ast.UnaryExpr{Op: token.AND, X: se.X}
+		}
+		c.Fun = sel("simrt", "Cond"+name)
+		c.Args = []ast.Expr{key}
+		counts["R1_cond"]++
 		return
 	}
 	if once, ptr := isOnceDo(info, se); once && len(c.Args) == 1 {
@@ -525,8 +562,8 @@ func main() {
 		b, _ := json.Marshal(map[string]any{"sites": sites, "counts": counts, "notes": notes})
 		_ = os.WriteFile(*sitesOut, b, 0o644)
 	}
-	fmt.Printf("instrument: %d files, %d yield sites, %d lock ops, %d once.Do, %d go statements, %d bbolt.Open, %d map ranges (%d left native)\n",
-		nfiles, len(sites), counts["R1_locks"], counts["R1_once"], counts["R6_go"], counts["R3_boltopen"], counts["R5_maprange"], counts["R5_skipped"])
+	fmt.Printf("instrument: %d files, %d yield sites, %d lock ops, %d once.Do, %d cond ops, %d go statements, %d bbolt.Open, %d map ranges (%d left native)\n",
+		nfiles, len(sites), counts["R1_locks"], counts["R1_once"], counts["R1_cond"], counts["R6_go"], counts["R3_boltopen"], counts["R5_maprange"], counts["R5_skipped"])
 	for _, n := range notes {
 		fmt.Println("instrument: note:", n)
 	}
